@@ -107,7 +107,8 @@ pub fn judge(case: &Case, l: &mut Local) {
             let sum = cw + ccw;
             let same = same_direction(r0, r1, tol);
             // when the two angles denote the same direction up to rounding, either answer is acceptable
-            let ok = (sum - TAU).abs() <= 1e-9 || (sum.abs() <= 1e-9) || (same && ((sum - 2.0 * TAU).abs() <= 1e-9));
+            let _ = same;
+            let ok = (sum - TAU).abs() <= 1e-9 || (sum.abs() <= 1e-9);
             l.check("clockwise and counter-clockwise directed angles sum to a full turn or are both zero", "", ok, mk, || format!("{:e} -> {:e}: cw {:e} + ccw {:e}", r0, r1, cw, ccw));
         }
         "vec" => {
@@ -125,7 +126,7 @@ pub fn judge(case: &Case, l: &mut Local) {
             let ok = (-PI..=PI).contains(&s) && (rot(s) - t).norm() <= 1e-12 && (0.0..=TAU).contains(&cw) && (0.0..=TAU).contains(&ccw) && (rot(ccw) - t).norm() <= 1e-12 && (rot(-cw) - t).norm() <= 1e-12;
             l.check("vector angles are in range and rotate the first vector onto the second", "", ok, mk, || format!("{:?} {:?}: signed {:e} cw {:e} ccw {:e}", v1, v2, s, cw, ccw));
             let sum = cw + ccw;
-            l.check("vector cw and ccw directed angles sum to a full turn or are both zero", "", (sum - TAU).abs() <= 1e-12 || sum.abs() <= 1e-12 || (cross.abs() < 1e-15 && (sum - 2.0 * TAU).abs() <= 1e-12), mk, || {
+            l.check("vector cw and ccw directed angles sum to a full turn or are both zero", "", (sum - TAU).abs() <= 1e-12 || sum.abs() <= 1e-12, mk, || {
                 format!("{:?} {:?}: cw {:e} ccw {:e}", v1, v2, cw, ccw)
             });
         }
